@@ -15,6 +15,8 @@
 //     UnmarshalMsg decodes into it, and whether it drops partial results on a decode error;
 //   - pool discipline: App.pool is touched only by AcquireCtx (Get) / ReleaseCtx (Put), redirectPool
 //     only by AcquireRedirect / ReleaseRedirect; serverErrorHandler defers ReleaseCtx;
+//   - App.sendfiles (app-level cache behind c.SendFile): which fields of the SendFile struct
+//     compareConfig compares, and that the entry built on a miss is keyed by the caller's configuration;
 //   - the route-parameter slots (c.values, never reset): Route.match's catch-all branch writes slot 0 on
 //     every path, getMatch writes slot paramsIterator before any use of params in the same iteration,
 //     Params indexes c.values only with the loop variable of `range route.Params`.
@@ -722,6 +724,92 @@ func paramsReadsRouteSlots(d *ast.FuncDecl) bool {
 	return ok && reads > 0
 }
 
+// sendFileCompared: for every field of the SendFile struct, does sendFileStore.compareConfig compare it
+// (an == or != whose two sides select that field, one from the stored configuration `<recv>.config`, the
+// other from the parameter)? Works for the chain of `if a.X != b.X { return false }` as well as for one
+// `return a.X == b.X && ...` expression.
+func (p *pkg) sendFileCompared() (fields []string, compared map[string]bool) {
+	compared = map[string]bool{}
+	st, ok := p.structs["SendFile"]
+	if !ok {
+		die("type SendFile not found")
+	}
+	for _, f := range st.Fields.List {
+		for _, n := range f.Names {
+			fields = append(fields, n.Name)
+		}
+	}
+	d := p.funcs["sendFileStore.compareConfig"]
+	if d == nil || d.Type.Params == nil || len(d.Type.Params.List) != 1 || len(d.Type.Params.List[0].Names) != 1 {
+		return fields, compared
+	}
+	_, recv := recvName(d)
+	param := d.Type.Params.List[0].Names[0].Name
+	side := func(e ast.Expr) (which, field string) {
+		sel, ok := e.(*ast.SelectorExpr)
+		if !ok {
+			return "", ""
+		}
+		switch x := sel.X.(type) {
+		case *ast.Ident:
+			if x.Name == param {
+				return "param", sel.Sel.Name
+			}
+		case *ast.SelectorExpr:
+			if id, ok := x.X.(*ast.Ident); ok && id.Name == recv && x.Sel.Name == "config" {
+				return "stored", sel.Sel.Name
+			}
+		}
+		return "", ""
+	}
+	ast.Inspect(d.Body, func(n ast.Node) bool {
+		be, ok := n.(*ast.BinaryExpr)
+		if !ok || (be.Op != token.EQL && be.Op != token.NEQ) {
+			return true
+		}
+		w1, f1 := side(be.X)
+		w2, f2 := side(be.Y)
+		if w1 != "" && w2 != "" && w1 != w2 && f1 == f2 {
+			compared[f1] = true
+		}
+		return true
+	})
+	return fields, compared
+}
+
+// sendFileStoresOwnConfig: in DefaultCtx.SendFile the lookup goes through compareConfig with the caller's
+// configuration and the entry built on a miss stores that same configuration as its key.
+func sendFileStoresOwnConfig(d *ast.FuncDecl) bool {
+	if d == nil {
+		return false
+	}
+	arg, key := "", ""
+	ast.Inspect(d.Body, func(n ast.Node) bool {
+		switch x := n.(type) {
+		case *ast.CallExpr:
+			if sel, ok := x.Fun.(*ast.SelectorExpr); ok && sel.Sel.Name == "compareConfig" && len(x.Args) == 1 {
+				if id, ok := x.Args[0].(*ast.Ident); ok {
+					arg = id.Name
+				}
+			}
+		case *ast.CompositeLit:
+			if id, ok := x.Type.(*ast.Ident); ok && id.Name == "sendFileStore" {
+				for _, e := range x.Elts {
+					if kv, ok := e.(*ast.KeyValueExpr); ok {
+						if k, ok := kv.Key.(*ast.Ident); ok && k.Name == "config" {
+							if v, ok := kv.Value.(*ast.Ident); ok {
+								key = v.Name
+							}
+						}
+					}
+				}
+			}
+		}
+		return true
+	})
+	return arg != "" && arg == key
+}
+
 func main() {
 	repo := flag.String("repo", "/repo", "fiber repository")
 	out := flag.String("out", "lean/FiberModel/Generated/C05Facts.lean", "output file")
@@ -793,7 +881,19 @@ func main() {
 		{"starWritesSlot0", starWritesSlot0(p.funcs["Route.match"])},
 		{"getMatchWritesBeforeRead", getMatchWritesBeforeRead(p.funcs["routeParser.getMatch"])},
 		{"paramsReadsRouteSlots", paramsReadsRouteSlots(p.funcs["DefaultCtx.Params"])},
+		{"sendFileStoresOwnConfig", sendFileStoresOwnConfig(p.funcs["DefaultCtx.SendFile"])},
 	}
+	sfFields, sfCmp := p.sendFileCompared()
+	b.WriteString("/-- per field of the SendFile struct: does sendFileStore.compareConfig compare it -/\n")
+	b.WriteString("def sendFileCompared : List (String × Bool) := [\n")
+	for i, f := range sfFields {
+		sep := ","
+		if i+1 == len(sfFields) {
+			sep = ""
+		}
+		fmt.Fprintf(&b, "  (%q, %v)%s\n", f, sfCmp[f], sep)
+	}
+	b.WriteString("]\n\n")
 	b.WriteString("def lifecycle : Lifecycle := {\n")
 	for i, x := range bools {
 		sep := ","
